@@ -1234,10 +1234,15 @@ class C15(Monitor):
         self.allow_tags = {}
         self.pre = None
         self.pre_tags = ()
+        self.shrunk = {}
+        self.incomplete_cancels = {}
+        self.kf_used = {}
+        self.pre_incomplete = ()
 
     def __canon__(self):
         return (sorted((p, sorted(v)) for p, v in self.grand.items()), sorted(self.allow.items()),
-                sorted((p, sorted(v)) for p, v in self.allow_tags.items()))
+                sorted((p, sorted(v)) for p, v in self.allow_tags.items()), sorted(self.shrunk.items()),
+                sorted(self.incomplete_cancels.items()), sorted(self.kf_used.items()))
 
     def pending_tags(self, p):
         w = self.w
@@ -1285,10 +1290,11 @@ class C15(Monitor):
                 # an admission the old limit had already granted (free room and pending demand
                 # at the moment of the assignment: slot in transit to a woken spawner of THAT request)
                 self.allow[p] -= 1
-            elif w.live[p] > w.cfg_size[p] and self.allow.get(p, 0) > 0 and len(entitled) < len(self.allow_tags.get(p, ())):
-                # known finding KF-C15-1: the slot was in transit to a spawner whose group was cancelled after the
-                # pool had been shrunk; the semaphore took the slot back past the pool's debt counter
-                self.allow[p] -= 1
+            elif (w.live[p] > w.cfg_size[p] and self.shrunk.get(p) and self.kf_used.get(p, 0) < self.incomplete_cancels.get(p, 0)):
+                # known finding KF-C15-1: a slot was in transit to a spawner whose group was cancelled (before or after
+                # the pool was shrunk in that window); asyncio's Semaphore puts the slot back past the pool's debt
+                # counter. At most one such admission per request that was cancelled while still spawning.
+                self.kf_used[p] = self.kf_used.get(p, 0) + 1
                 self.v("KF-C15-1 slot in transit to a spawner cancelled after a shrink is handed to a later request "
                        "(one task beyond the new limit)", p, w.live[p], w.cfg_size[p])
             elif w.live[p] > w.cfg_size[p]:
@@ -1299,6 +1305,9 @@ class C15(Monitor):
     def before_op(self, i, op):
         w = self.w
         name, pos, opts = split_op(op)
+        if name in ("cancel_group", "cancel_all"):
+            p = opts.get("p", 0)
+            self.pre_incomplete = [t for t in self.pending_tags(p)]
         if name == "set_size":
             p = opts.get("p", 0)
             self.before = (w.pools[p].pool_size, w.pools[p].num_running, w.live[p], len(w.started))
@@ -1310,9 +1319,14 @@ class C15(Monitor):
     def after_op(self, i, op, out):
         w = self.w
         name, pos, opts = split_op(op)
+        p = opts.get("p", 0)
+        if name in ("cancel_group", "cancel_all") and out[0] == "ok":
+            gone = [t for t in self.pre_incomplete if t in w.group_cancelled]
+            self.incomplete_cancels[p] = self.incomplete_cancels.get(p, 0) + len(gone)
         if name != "set_size":
             return
-        p = opts.get("p", 0)
+        if pos[0] != -1 and out[0] == "ok" and self.before is not None and w.cfg_size[p] < self.before[0]:
+            self.shrunk[p] = True
         if pos[0] == -1:
             if not w.raised(out, ValueError):
                 self.v("negative pool size did not raise ValueError", out)
